@@ -695,8 +695,10 @@ char *qstr_comma_number(int number) {
     if (str == NULL)
         return NULL;
 
+    /* abs(INT_MIN) is still negative; take the magnitude in unsigned arithmetic */
+    unsigned int unumber = (number < 0) ? 0U - (unsigned int) number : (unsigned int) number;
     char buf[10 + 1], *bufp;
-    snprintf(buf, sizeof(buf), "%d", abs(number));
+    snprintf(buf, sizeof(buf), "%u", unumber);
 
     if (number < 0)
         *strp++ = '-';
